@@ -399,6 +399,9 @@ class Executor:
         segs = path_segments(t)
         if len(segs) >= 2 and segs[-2] in ENUMS and segs[-1] in ENUMS[segs[-2]]:
             return Adt(segs[-2], segs[-1], [])     # unit variant used as a constant
+        named = getattr(self, "const_values", None)
+        if named and t.strip() in named:
+            return named[t.strip()]               # integer `const` item of the crate, value read from its source by the kernel
         return Opaque("const", t)
 
     def eval_const_item(self, st, name):
